@@ -561,6 +561,24 @@ pub fn c03_step(st: &mut C03State, pre: &StoreSnap, post: &StoreSnap, step: &Ste
     if !step.ok {
         return (out, false);
     }
+    // close_balance moves no tokens: whatever net value it credits the user (debt wiped minus deposit given up) was paid
+    // for with nothing, so it must stay within the dust the statement of C02 sanctions for a closure (0.0001 units)
+    if let (Op::CloseBalance { .. }, Some(bi), Some(acct)) = (&step.op, step.bank, step.macct) {
+        let key = w.banks[bi].key;
+        if let Some(b1) = post.banks.get(&key) {
+            let (a0, l0) = pos_of(pre, &acct, &key);
+            let (a1, l1) = pos_of(post, &acct, &key);
+            let credited = (q_bits(l0) - q_bits(l1)) * &b1.lsv - (q_bits(a0) - q_bits(a1)) * &b1.asv;
+            st.checked += 1;
+            if credited > threshold_0001() {
+                out.push(finding(
+                    "value:close-balance-wipes-debt",
+                    format!("op#{}: close_balance wiped a debt worth {} (net of the deposit given up) although no tokens were paid (lsv {})", step.index, q_str(&credited), q_str(&b1.lsv)),
+                ));
+            }
+        }
+        return (out, false);
+    }
     let (Some(bi), Some(acct), Some((_tk, tok_pre, tok_post))) = (step.bank, step.macct, step.user_token) else { return (out, false) };
     if !matches!(step.op, Op::Deposit { .. } | Op::Withdraw { .. } | Op::Borrow { .. } | Op::Repay { .. }) {
         return (out, false);
